@@ -249,3 +249,44 @@ PROPS["C06"] = {
         },
     ],
 }
+
+PROPS["C15"] = {
+    "level": "model_checking",
+    "claim": "Bounded symbolic model checking of the real name and size checks that guard module archive extraction: every name accepted by module.CheckFilePath and stable under path.Clean is relative, has no empty/./.. element, no backslash, colon, NUL or control byte, and filepath.Join(dir,name) stays below dir; the real modzip.CheckZip loop (zip container parsing stubbed) lists a name as valid only if it passed those checks, never lists two names that are equal, case-equal or file/directory-clashing, confines cue.mod to the root with exact case, rejects cue.mod/local-module.cue, and its size accounting (uint64/int64 bit-vector arithmetic) admits no wrap-around.",
+    "note": "Trusted: go/ssa, the executor, z3. Stubs: archive/zip.NewReader returns harness entries (names, sizes, directory flags symbolic). Outside: the zip container format, symlink/irregular entries (CheckZip sees only names and sizes), Unicode case folding beyond ASCII, the byte-copy loop of Unzip and CheckFiles/Create (creator side), real file-system effects.",
+    "technique": "bounded symbolic execution of module.CheckFilePath/checkPath/checkElem/fileNameOK, path.Clean, filepath.Join, modzip.CheckZip/collisionChecker.check/strToFold/splitCUEMod from go/ssa; safety predicates and size arithmetic decided by z3",
+    "bounds": {
+        "quick": "name checks: every byte string of <= 3 bytes; CheckZip: module file + one entry 'template + <= 2 arbitrary ASCII bytes' over 9 templates (cue.mod placements, case variants, local-module.cue); collisions: two names of <= 3 characters over {a,A,/,.} with symbolic letter case, both as file or directory entries, plus the targeted file-vs-path-below-it family; sizes: three entries with arbitrary 64-bit declared sizes",
+        "thorough": "name checks <= 4 bytes; templates + <= 3 bytes",
+    },
+    "outside": ["zip container parsing", "Unzip's copy loop and os effects", "creator side (CheckFiles/Create)", "non-ASCII case folding"],
+    "assumptions": ["unicode.IsLetter is an uninterpreted function beyond ASCII (category axioms only)"],
+    "runs": [
+        {
+            "pkg": "./mod/module",
+            "harness": ["module/filepath.go"],
+            "entries": {
+                "quick": [{"name": "verifHarnessFilePathSafe", "params": {"N": 3}}],
+                "thorough": [{"name": "verifHarnessFilePathSafe", "params": {"N": 4}}],
+            },
+        },
+        {
+            "pkg": "./mod/modzip",
+            "harness": ["modzip/checkzip.go"],
+            "entries": {
+                "quick": [
+                    {"name": "verifHarnessCheckZipName", "params": {"N": 2}},
+                    {"name": "verifHarnessCheckZipCollisions", "params": {"N": 3, "MODE": 0}},
+                    {"name": "verifHarnessCheckZipCollisions", "params": {"N": 3, "MODE": 1}},
+                    "verifHarnessCheckZipSizes",
+                ],
+                "thorough": [
+                    {"name": "verifHarnessCheckZipName", "params": {"N": 3}},
+                    {"name": "verifHarnessCheckZipCollisions", "params": {"N": 3, "MODE": 0}},
+                    {"name": "verifHarnessCheckZipCollisions", "params": {"N": 4, "MODE": 1}},
+                    "verifHarnessCheckZipSizes",
+                ],
+            },
+        },
+    ],
+}
